@@ -662,12 +662,15 @@ package mux
 //@   requires r != nil && r.tree != nil
 //@ fn WithLock$1
 //@   requires o != nil
+//@   ensures [C06] sets: o.lock == l
 //@ fn WithRecovery$1
 //@   requires o != nil
+//@   ensures [C16] sets: o.recoverFunc == f
 //@ fn WithTrace$1
 //@   requires o != nil
 //@ fn WithURLDomain$1
 //@   requires o != nil
+//@   ensures [C10] sets: o.urlDomain == prefix
 //@ fn WithCORS$1
 //@   requires o != nil
 //@ fn options.sanitize
@@ -691,12 +694,26 @@ package mux
 //@   requires rr != nil && rr.tree != nil && r != nil && r.tree != nil
 //@ fn Group.Remove$1
 //@   requires r != nil && r.tree != nil
+// NewRouter / NewGroup store what they are given: the call function, and from the built options the recovery
+// function (C16), the CORS settings (C11/C12), the URL domain (C10); the tree gets the trace handler (C18), the lock
+// flag (C06), the interceptor table and the builders.
 //@ fn NewRouter
 //@   maypanic
 //@   requires forall k int :: 0 <= k && k < len(o) ==> o[k] != nil
+//@   atcall mux.buildOption [C16,C13] all-options: arg0 == o
+//@   atcall tree.New [C18,C06,C13] configured: arg0 == name && arg1 == callresult("mux.buildOption", 1, 0).lock && arg2 == callresult("mux.buildOption", 1, 0).interceptors &&
+//@        arg3 == notFound && arg4 == callresult("mux.buildOption", 1, 0).trace && arg5 == methodNotAllowedBuilder && arg6 == optionsBuilder
+//@   ensures [C16] recover-stored: result.recoverFunc == callresult("mux.buildOption", 1, 0).recoverFunc
+//@   ensures [C11,C12] cors-stored: result.cors == callresult("mux.buildOption", 1, 0).cors
+//@   ensures [C10] domain-stored: result.urlDomain == callresult("mux.buildOption", 1, 0).urlDomain
+//@   ensures [C01,C13] call-stored: result.call == call && result.tree == callresult("tree.New", 1, 0) && fresh(result)
 //@ fn NewGroup
 //@   maypanic
 //@   requires forall k int :: 0 <= k && k < len(o) ==> o[k] != nil
+//@   atcall mux.buildOption [C16,C13] all-options: arg0 == o
+//@   ensures [C16] recover-stored: result.recoverFunc == callresult("mux.buildOption", 1, 0).recoverFunc
+//@   ensures [C13] stored: fresh(result) && result.call == call && result.notFound == notFound && result.originNotFound == notFound &&
+//@        result.methodNotAllowedBuilder == methodNotAllowedBuilder && result.optionsBuilder == optionsBuilder && result.options == o && len(result.routers) == 0 && len(result.ms) == 0
 //@ fn Group.Routes
 //@   requires g != nil && allSafe() && (forall k int :: 0 <= k && k < len(g.routers) ==> g.routers[k] != nil && routerTree(g.routers[k]))
 //@   inv 1 [C05] bound: -1 <= rangeindex && rangeindex < len(routers) && routers == g.routers && g.routers == old(g.routers) && allSafe() &&
